@@ -213,8 +213,9 @@ def _dispatch(model: Model, D: RuleResult):
 def _uniq(model: Model, U: RuleResult):
     init = model.func(PF, "PureFunction.__init__")
     src = ast.unparse(init.node)
-    if "self._uniq = Uniquifier(self._allobjparams)" in src and "self._cur_objparams = self._uniq.get_unique_objs()" in src \
-            and "self._allobjparams = self._get_all_obj_params_init()" in src:
+    from ..model import has_form
+    if has_form(init.node, "self._uniq = Uniquifier(self._allobjparams)", "self._cur_objparams = self._uniq.get_unique_objs()",
+                "self._allobjparams = self._get_all_obj_params_init()"):
         U.ok(init.fq, "current parameters = unique objects of the Uniquifier built from all object parameters")
     else:
         U.bad(init, init.node, "PureFunction.__init__ must derive _cur_objparams from the Uniquifier of _get_all_obj_params_init()")
